@@ -830,16 +830,28 @@ pub fn generate(name: &str, count: usize, rng: &mut Rng, sink: &mut dyn FnMut(Se
                 }
                 parts.join(":")
             };
+            // (total length, digits of the source port, digits of the destination port): the longest
+            // lines first, every combination of port widths
+            let mut combos: Vec<(usize, usize, usize)> = Vec::new();
+            for target in [107usize, 106, 105, 104, 103, 100, 98] {
+                for sd in 1..=5usize {
+                    for dd in 1..=5usize {
+                        combos.push((target, sd, dd));
+                    }
+                }
+            }
             let mut i = 0;
             let mut tries = 0;
-            while i < count && tries < count * 4000 {
+            while i < count && tries < count * 6000 {
                 tries += 1;
-                let target = 98 + (i % 10);
+                let (target, sd, dd) = combos[i % combos.len()];
                 let shape = rng.below(4);
                 let src = wide(rng, shape == 0 || shape == 2);
                 let dst = wide(rng, shape == 1 || shape == 2);
-                let port = |rng: &mut Rng| -> String { match rng.below(5) { 0 => "65535".to_string(), 1 => format!("{}", 10000 + rng.below(55536)), 2 => format!("{}", 1000 + rng.below(9000)), 3 => format!("{}", rng.below(1000)), _ => format!("{}", rng.below(10)) } };
-                let line = format!("PROXY TCP6 {} {} {} {}\r\n", src, dst, port(rng), port(rng));
+                let port = |rng: &mut Rng, digits: usize| -> String {
+                    match digits { 5 => if rng.chance(1, 2) { "65535".to_string() } else { format!("{}", 10000 + rng.below(55536)) }, 4 => format!("{}", 1000 + rng.below(9000)), 3 => format!("{}", 100 + rng.below(900)), 2 => format!("{}", 10 + rng.below(90)), _ => format!("{}", rng.below(10)) }
+                };
+                let line = format!("PROXY TCP6 {} {} {} {}\r\n", src, dst, port(rng, sd), port(rng, dd));
                 if line.len() != target {
                     continue;
                 }
